@@ -35,17 +35,20 @@ type tierCfg struct {
 }
 
 type propCfg struct {
-	Level    string
-	Quick    tierCfg
-	Thorough tierCfg
-	Fuzz     []string // native fuzz targets (package ./fuzz)
-	DeathIsViolation bool // a worker killed by the code under test is the violation (current-case file = replay)
+	Level            string
+	Quick            tierCfg
+	Thorough         tierCfg
+	Fuzz             []string // native fuzz targets (package ./fuzz)
+	DeathIsViolation bool     // a worker killed by the code under test is the violation (current-case file = replay)
 }
 
 var props = map[string]propCfg{
 	"C18": {Level: "exploration",
 		Quick:    tierCfg{Checks: 48000, Shards: 16, Guard: 10 * time.Minute},
 		Thorough: tierCfg{Checks: 1600000, Shards: 16, Guard: 60 * time.Minute}},
+	"C15": {Level: "exploration", DeathIsViolation: true,
+		Quick:    tierCfg{Checks: 96000, Shards: 16, Guard: 10 * time.Minute},
+		Thorough: tierCfg{Checks: 1600000, Shards: 16, Guard: 90 * time.Minute, Race: true}},
 }
 
 type knownEntry struct {
@@ -207,6 +210,11 @@ func replayCmd(id, file string) int {
 	abs, _ := filepath.Abs(file)
 	sig, msg, err := runReplay(bin, id, "quick", abs, "finding")
 	if err != nil {
+		if props[id].DeathIsViolation {
+			fmt.Println("the process died while replaying:", err)
+			fmt.Printf("VIOLATION property=%s replay=%s\n", id, abs)
+			return 1
+		}
 		fmt.Println("INCONCLUSIVE:", err)
 		return 2
 	}
@@ -343,7 +351,7 @@ func check(id, tier string) int {
 				"VERIF_STATS="+filepath.Join(wd, fmt.Sprintf("stats-%d.json", s)),
 				"VERIF_FAIL="+filepath.Join(wd, fmt.Sprintf("fail-%d.json", s)),
 				"VERIF_CUR="+filepath.Join(wd, fmt.Sprintf("cur-%d.json", s)),
-				"VERIF_KNOWN="+filepath.Join(root, "findings", "known.json"), "VERIF_WORK="+wd)
+				"VERIF_KNOWN="+filepath.Join(root, "findings", "known.json"), "VERIF_WORK="+wd, "GORACE=halt_on_error=1")
 			var buf bytes.Buffer
 			cmd.Stdout, cmd.Stderr = &buf, &buf
 			cmd.SysProcAttr = &syscall.SysProcAttr{Setpgid: true}
@@ -447,19 +455,19 @@ func check(id, tier string) int {
 	}
 	meta := readMeta(bin, id)
 	cov := map[string]interface{}{
-		"evaluations":         merged.Evaluations,
-		"rapid_cases":         merged.Cases,
-		"distinct_nontrivial": len(distinct),
-		"nontrivial_total":    merged.NonTrivial,
-		"distinct_count_capped": capped,
-		"rule":                meta.Rule,
-		"samples":             sampleVals,
-		"labels":              merged.Labels,
-		"excluded_known":      merged.Known,
+		"evaluations":             merged.Evaluations,
+		"rapid_cases":             merged.Cases,
+		"distinct_nontrivial":     len(distinct),
+		"nontrivial_total":        merged.NonTrivial,
+		"distinct_count_capped":   capped,
+		"rule":                    meta.Rule,
+		"samples":                 sampleVals,
+		"labels":                  merged.Labels,
+		"excluded_known":          merged.Known,
 		"known_findings_reported": knownLines,
-		"shards":              shards,
-		"requested_cases":     per * shards,
-		"exhaustive":          false,
+		"shards":                  shards,
+		"requested_cases":         per * shards,
+		"exhaustive":              false,
 	}
 	if len(notes) > 0 {
 		cov["notes"] = notes
